@@ -9,7 +9,8 @@ spec["guards"] = [ [file, function, anchor-regex, gallina-name, [params], {c-sub
 
 spec["structure"] = [ ["depth", file, function, anchor, name],
                       ["count_after", file, function, anchor, pattern, "block"|"function", name],
-                      ["count_before", file, function, anchor, pattern, name] ]
+                      ["count_before", file, function, anchor, pattern, name],
+                      ["path_condition", file, function, anchor, name, [params], {subst}] ]
   Position of a guard / an update relative to the control structure: its brace depth (a guard that has been moved
   into a branch no longer has depth 0), what follows it (a re-assignment of the guarded handle, a failing exit after a
   permission upgrade) and what precedes it (effects before the guard).  The lemmas state the values a DOMINATING guard
@@ -88,6 +89,37 @@ def emit(repo, spec, H):
             n = len(re.findall(pattern, body[:m.start()]))
             out.append("(* %s: %s: occurrences of /%s/ before the anchored statement *)" % (f, fn, pattern.replace("*)", "* )").replace("(*", "( *")))
             out.append("Definition %s : Z := %d." % (name, n))
+        elif kind == "path_condition":
+            # conjunction of the conditions of all if-blocks that enclose the anchored statement: the condition under
+            # which the statement is reached from the function entry (tolerant of nesting vs. one flattened test)
+            _, f, fn, anchor, name, params, subst = ent
+            body, m = locate(f, fn, anchor)
+            stack = []
+            for i, ch in enumerate(body[:m.start()]):
+                if ch == "{":
+                    j = max(body.rfind(";", 0, i), body.rfind("{", 0, i), body.rfind("}", 0, i))
+                    stack.append(" ".join(body[j + 1:i].split()))
+                elif ch == "}" and stack:
+                    stack.pop()
+            conds = []
+            for hd in stack:
+                if not hd:
+                    continue            # bare scope block
+                mm = re.fullmatch(r"if \((.*)\)", hd)
+                if not mm:
+                    raise ValueError("%s:%s: enclosing block %r of %r is not a plain if-block" % (f, fn, hd, anchor))
+                conds.append("(" + mm.group(1) + ")")
+            cexpr = " && ".join(conds) if conds else "1"
+            e = cexpr
+            for k in sorted(subst, key=len, reverse=True):
+                e = e.replace(k, " %s " % subst[k])
+            e = re.sub(r"'(.)'", lambda q: str(ord(q.group(1))), e)
+            env = {}
+            env.update(H.all_enums(H.src(repo, f)))
+            env.update(H.defines(repo, f))
+            term = H.P(e, params, env).ternary_all()
+            out.append("(* %s: %s: path condition of the statement matching %s: %s *)" % (f, fn, anchor.replace("*)", "* )").replace("(*", "( *"), cexpr.replace("*)", "* )").replace("(*", "( *")))
+            out.append("Definition %s %s : Z := %s." % (name, " ".join("(%s : Z)" % p_ for p_ in params), term))
         else:
             raise ValueError("unknown structure kind %r" % kind)
     return out
